@@ -371,4 +371,86 @@ theorem addWord_ne {size : Nat} {lines : List Str} {w : Str} (hl : LinesNe lines
         · exact hw
         · exact hl x hx
 
+theorem isEmpty_false_of_ne {α : Type} {l : List α} (h : l ≠ []) : l.isEmpty = false := by
+  cases l with
+  | nil => exact absurd rfl h
+  | cons => rfl
+
+/-- the `while words:` loop, for a size of at least 4: it ends, normally; the lines concatenate to what
+was there before plus the words; no line exceeds the size. -/
+theorem wrapLoop_ok (hc : ConstsOk) (size : Nat) (h4 : 4 ≤ size) :
+    ∀ (f : Nat) (ws lines : List Str), fuelFor ws ≤ f → LinesOk size lines →
+    ∃ out, wrapLoop size f ws lines = .ok out ∧ out.flatten = lines.reverse.flatten ++ ws.flatten ∧
+      LinesOk size out := by
+  intro f
+  induction f with
+  | zero =>
+    intro ws lines hf hl
+    cases ws with
+    | nil => exact ⟨lines.reverse, by simp [wrapLoop], by simp, fun l hl' => hl l (List.mem_reverse.mp hl')⟩
+    | cons w ws => simp only [fuelFor] at hf; omega
+  | succ f ih =>
+    intro ws lines hf hl
+    cases ws with
+    | nil => exact ⟨lines.reverse, by simp [wrapLoop], by simp, fun l hl' => hl l (List.mem_reverse.mp hl')⟩
+    | cons w ws =>
+      by_cases hlong : size < blen w
+      · obtain ⟨a, b, hs, hab, hle, hgt⟩ := splitBytes_spec' hc w size h4 hlong
+        have ha : a ≠ [] := by
+          intro h; subst h; simp only [blen] at hgt; omega
+        have hab' : blen w = blen a + blen b := by rw [← hab, blen_append]
+        have hapos := blen_pos ha
+        have hfuel : fuelFor (b :: ws) ≤ f := by
+          simp only [fuelFor] at hf ⊢; omega
+        obtain ⟨out, h1, h2, h3⟩ := ih (b :: ws) (addWord size lines a) hfuel (addWord_ok hl hle)
+        refine ⟨out, ?_, ?_, h3⟩
+        · simp only [wrapLoop, hlong, ↓reduceIte, hs, isEmpty_false_of_ne ha, Bool.false_eq_true]
+          exact h1
+        · rw [h2, addWord_flatten, ← hab]; simp
+      · have hw : blen w ≤ size := by omega
+        have hfuel : fuelFor ws ≤ f := by simp only [fuelFor] at hf; omega
+        obtain ⟨out, h1, h2, h3⟩ := ih ws (addWord size lines w) hfuel (addWord_ok hl hw)
+        refine ⟨out, ?_, ?_, h3⟩
+        · simp only [wrapLoop, hlong, ↓reduceIte]
+          exact h1
+        · rw [h2, addWord_flatten]; simp
+
+theorem linesNe_reverse {lines : List Str} (h : LinesNe lines) : LinesNe lines.reverse := by
+  rcases h with rfl | h
+  · left; rfl
+  · right; intro l hl; exact h l (List.mem_reverse.mp hl)
+
+theorem wrapLoop_ne (hc : ConstsOk) (size : Nat) (h4 : 4 ≤ size) :
+    ∀ (f : Nat) (ws lines : List Str) (out : List Str), wrapLoop size f ws lines = .ok out →
+    (∀ w ∈ ws, w ≠ []) → LinesNe lines → LinesNe out := by
+  intro f
+  induction f with
+  | zero =>
+    intro ws lines out h hws hl
+    cases ws with
+    | nil => simp only [wrapLoop, WrapRes.ok.injEq] at h; subst h; exact linesNe_reverse hl
+    | cons w ws => simp [wrapLoop] at h
+  | succ f ih =>
+    intro ws lines out h hws hl
+    cases ws with
+    | nil => simp only [wrapLoop, WrapRes.ok.injEq] at h; subst h; exact linesNe_reverse hl
+    | cons w ws =>
+      have hw := hws w List.mem_cons_self
+      have hws' : ∀ x ∈ ws, x ≠ [] := fun x hx => hws x (List.mem_cons_of_mem _ hx)
+      by_cases hlong : size < blen w
+      · obtain ⟨a, b, hs, hab, hle, hgt⟩ := splitBytes_spec' hc w size h4 hlong
+        have ha : a ≠ [] := by
+          intro h; subst h; simp only [blen] at hgt; omega
+        have hab' : blen w = blen a + blen b := by rw [← hab, blen_append]
+        have hb : b ≠ [] := by
+          intro h; subst h; simp only [blen] at hab'; omega
+        simp only [wrapLoop, hlong, ↓reduceIte, hs, isEmpty_false_of_ne ha, Bool.false_eq_true] at h
+        refine ih (b :: ws) _ out h ?_ (Or.inr (addWord_ne hl ha hle))
+        intro x hx
+        rcases List.mem_cons.mp hx with rfl | hx
+        · exact hb
+        · exact hws' x hx
+      · simp only [wrapLoop, hlong, ↓reduceIte] at h
+        exact ih ws _ out h hws' (Or.inr (addWord_ne hl hw (by omega)))
+
 end C12
